@@ -201,7 +201,7 @@ def c02_engine(prop, cfg, tier, seed, only=None, crosscheck=True):
                 collect(rr, "vsync/" + t, lines, prc, "" if m else err, "vsync/" + t)
         res["runresult"] = rr
         res["detail"]["vsync"] = stats
-        if crosscheck:          # (a replay does not regenerate the table)
+        if crosscheck and prop in TRANSLATOR_PROPS:     # (only runs that regenerate the table; a replay does not)
             res["detail"]["lock_table_crosscheck"] = crosscheck_lock_table(observed, res, prop)
         res["detail"]["interleavings_executed"] = sum(v["executions"] for v in stats.values())
     finally:
